@@ -99,7 +99,7 @@ static std::string runScenario(const Scenario& s, const std::string* replay, vsc
 	if (replay) { vsched::Result x = vsched::run_once(vsched::parse_schedule(*replay), body); after(x); return verdict; }
 	vsched::ExploreStats st = vsched::explore(body, after, s.bound);
 	if (out) *out = st;
-	vf::add(C_JOBS);
+	vf::add(C_JOBS); vf::add(C_STATES, st.distinct_states);
 	return "";
 }
 
@@ -132,7 +132,6 @@ int main(int argc, char** argv) {
 		return vf::finish();
 	}
 	vf::parallel(sc.size(), [&](uint64_t i) { vf::cur(sc[i].name); if (vf::deadline_passed()) { vf::cap_hit("deadline"); return; } vsched::ExploreStats st; runScenario(sc[i], 0, &st); if (getenv("VF_DEBUG")) fprintf(stderr, "%s: %llu executions\n", sc[i].name.c_str(), (unsigned long long)st.executions); });
-	vf::add(C_STATES, vf::get(C_POINTS));
 	vf::setinfo("scenarios", fmt("%d", (int)sc.size()));
 	vf::sample("lambda.body0: Thread t([]{}); t.join(); t.finished() - all schedules of creator / worker / ready-flag spin");
 	vf::sample("parallel_for(-3, 2, f, 3) with a yield inside f, all schedules with <= 1 preemption; parallel_for(i0, i1, f, n) for every -3<=i0,i1<=14, n<=6 under every non-preemptive schedule");
